@@ -189,6 +189,49 @@ def run_d(ck, prog, crate, n_parsers, n_literals, cli_types=True):
                     unchecked.append(nb)
             ck.ob("C20.5", f"{short}|missing-value-is-an-error", bool(heads) and not unchecked, fn=p, site=ctx.site(unchecked[0]) if unchecked else None,
                   detail=f"{len(unchecked)} value fetch(es) (`args.next()` inside an option's arm) whose `None` - the option was the last argument - does not end in an error: the option is accepted without its value")
+        # C20.7: every field of the result is fed by its own slot, filled the way its kind requires: a flag is set to true (never
+        # toggled), a repeated option accumulates with push, an optional one is None or Some(value), a required one is the payload of
+        # its slot on the edge where the slot is Some - the None edge ends in an error
+        if p.endswith("::arg_parse") and prog.adts.get(self_ty if (self_ty := fn.get("impl_self") or "") else "") and prog.adts[self_ty]["kind"] == "Struct":
+            ftys7 = {x["name"]: x["ty"] for x in prog.adts[self_ty]["variants"][0]["fields"]}
+            built = []
+            for b in fn["blocks"]:
+                if b["id"] not in ctx.cfg.live_blocks() or b.get("cleanup"):
+                    continue
+                for i, st7 in enumerate(b["stmts"]):
+                    if st7["k"] == "assign" and st7["rv"]["k"] == "agg" and st7["rv"].get("adt") == self_ty:
+                        built.append((b["id"], dict(zip(st7["rv"]["fields"], [ctx.prov.operand(o, (b["id"], i)) for o in st7["rv"]["ops"]]))))
+            ck.ob("C20.7", f"{short}|anchor|result-built-once", len(built) == 1, fn=p, detail=f"aggregates of {self_ty}: {len(built)}")
+            names7 = {x["p"]["l"]: x["n"] for x in fn.get("names", []) if isinstance(x.get("p", {}).get("l"), int) and not x["p"].get("p")}
+            for bb7, vals7 in built[:1]:
+                for fname, fty in ftys7.items():
+                    e7 = strip_casts(vals7.get(fname))
+                    why7 = None
+                    slot = None
+                    for z in walk_deep(e7, ctx.prov, limit=20):
+                        if z[0] in ("var", "place") and names7.get(z[1]) == fname:
+                            slot = z
+                            break
+                    if slot is None:
+                        why7 = f"the field is not fed from the slot `{fname}` (found {show(e7)[:60]})"
+                    elif fty == "bool":
+                        defs7 = [fold(d) for d in ctx.prov.expand(slot)] if slot[0] == "var" else [None]
+                        if not (set(defs7) <= {0, 1, False, True} and any(d in (1, True) for d in defs7)):
+                            why7 = f"a flag must only ever be assigned `false` (initially) and `true`; assignments found: {defs7}"
+                    elif fty.startswith("alloc::vec::Vec<"):
+                        pushes = [bb for bb, t in ctx.cfg.calls(lambda t: (t.get("callee") or "").endswith("Vec::<T, A>::push")) if mentions(ctx.args(bb)[0], ctx.prov, lambda z: z[0] in ("place", "var") and z[1] == slot[1])]
+                        reassigned = [b2["id"] for b2 in fn["blocks"] if b2["id"] in ctx.cfg.live_blocks() and ctx.cfg.in_cycle(b2["id"]) for s2 in b2["stmts"] if s2["k"] == "assign" and s2["dst"]["l"] == slot[1] and not s2["dst"].get("p")]
+                        if not pushes or reassigned:
+                            why7 = f"a repeated option must accumulate with push (pushes: {len(pushes)}, whole-value assignments inside the loop: {len(reassigned)})"
+                    elif fty.startswith("core::option::Option<"):
+                        if not (isinstance(e7, tuple) and e7[0] in ("var", "place")):
+                            why7 = f"an optional field must be handed over as its slot, found {show(e7)[:60]}"
+                    else:
+                        some = any(f[0] == "variant" and f[2] == "Some" and mentions(f[1], ctx.prov, lambda z: z[0] in ("var", "place") and z[1] == slot[1]) for f in panics.dominating_facts(ctx, bb7))
+                        payload = mentions(e7, ctx.prov, lambda z: z[0] == "downcast" and z[2] == "Some")
+                        if not (some and payload):
+                            why7 = "a required field must be the payload of its slot, taken on the edge where the slot is Some (the None edge reports `Required .. not supplied`)"
+                    ck.ob("C20.7", f"{short}|field-filled-according-to-its-kind|{fname}", why7 is None, fn=p, site=ctx.site(bb7), detail=why7 or "ok")
         # C20.6: the declared grammar is the only thing that decides what happens to a token
         if p.endswith("::arg_parse"):
             ALLOWED_CONSUMERS = ("Try::branch", "FromResidual::from_residual", "fmt::Arguments::<'a>::new", "ArgParseError::new_cause_fmt", "ArgParseError::new_cause_str", "UnixStr::as_str", "FromStr::from_str",
